@@ -339,8 +339,8 @@ func init() {
 			"'the button' of a new hand is ambiguous across heads-up transitions; a player is judged only where the published dealer seat and the previous small-blind seat give the same answer",
 			"add-ons (PlayerRedeemChips) are only given to players who still have chips: the statement names re-buy as the way a busted player becomes eligible again",
 		},
-		Cases:         func(tier string) int { return map[string]int{"quick": 256, "thorough": 4000}[tier] },
-		MinNontrivial: func(tier string) int { return map[string]int{"quick": 100, "thorough": 1500}[tier] },
+		Cases:         func(tier string) int { return map[string]int{"quick": 256, "thorough": 2000}[tier] },
+		MinNontrivial: func(tier string) int { return map[string]int{"quick": 100, "thorough": 800}[tier] },
 		RequiredFeatures: func(string) []string {
 			return []string{"waiting-newcomer", "newcomer-dealt-in", "addon-to-busted-player-between-hands", "seated-in-by-auto-join-timer", "first-hand-after-late-sitters"}
 		},
